@@ -447,29 +447,42 @@ pub fn c31_case(src: &mut Src, obs: &mut Obs) -> CaseResult {
             }
         }
     }
+    // two rounds of further signals; a consumer that comes back late takes one item per round and does
+    // not poll again before the next round's signals have been received
+    let more2: Vec<PEv> = (0..src.below(3)).map(|k| gen_ev(src, 90 + k as u32)).collect();
     let mut touched = false;
-    for ev in &more {
-        apply_server(ev, &mut a, &mut b, &mut unc);
-        emit(&mut bus, ev);
-        touched |= touches_a(ev);
-    }
-    settle_raw(&mut sched, &mut sch, &mut bus);
-    for (k, st) in streams.iter_mut().enumerate() {
-        let mut yielded = 0;
-        while let Some(item) = poll_once(st) {
-            yielded += 1;
-            let v = report(item, &mut sched, &mut sch, &mut bus, a, b, unc).map_err(Failure::new)?;
-            if v != a {
-                return Err(Failure::new(format!("property change stream {k} reports A={v} after the further signals {more:?}, the latest value is {a}; {}", describe())));
-            }
-            if yielded > 8 {
-                return Err(Failure::new(format!("property change stream {k} keeps yielding without any change ({yielded} items at rest); further signals {more:?}; {}", describe())));
-            }
+    for (round, evs) in [&more, &more2].into_iter().enumerate() {
+        let mut touched_now = false;
+        for ev in evs.iter() {
+            apply_server(ev, &mut a, &mut b, &mut unc);
+            emit(&mut bus, ev);
+            touched_now |= touches_a(ev);
         }
-        if touched && yielded == 0 {
-            return Err(Failure::new(format!("property change stream {k} for A yields nothing although signals touching A were received since it last yielded: {more:?}; {}", describe())));
+        touched |= touched_now;
+        settle_raw(&mut sched, &mut sch, &mut bus);
+        for (k, st) in streams.iter_mut().enumerate() {
+            let mut yielded = 0;
+            while let Some(item) = poll_once(st) {
+                yielded += 1;
+                let v = report(item, &mut sched, &mut sch, &mut bus, a, b, unc).map_err(Failure::new)?;
+                if v != a {
+                    return Err(Failure::new(format!("property change stream {k} reports A={v} after the further signals {evs:?} (round {round}), the latest value is {a}; {}", describe())));
+                }
+                if yielded > 8 {
+                    return Err(Failure::new(format!("property change stream {k} keeps yielding without any change ({yielded} items at rest); further signals {evs:?}; {}", describe())));
+                }
+                if comes_back_late {
+                    break;
+                }
+            }
+            if touched_now && yielded == 0 {
+                return Err(Failure::new(format!("property change stream {k} for A yields nothing although signals touching A were received since it last yielded: {evs:?} (round {round}, the consumer {}); {}", if comes_back_late { "takes one item per round and does not poll in between" } else { "polls until nothing is ready" }, describe())));
+            }
+            stream_notes.push(format!("stream {k}: {yielded} item(s) after {evs:?}"));
         }
-        stream_notes.push(format!("stream {k}: {yielded} item(s) after {more:?}"));
+        if round == 1 && touched_now && comes_back_late {
+            obs.label("change-stream:second-change-after-an-item-taken-without-polling-again");
+        }
     }
     // ---- a refetch after an invalidation, overtaken by a newer change ------------------------------
     // A is invalidated; the consumer of a change stream asks the item for the value (a Get goes out);
@@ -485,8 +498,11 @@ pub fn c31_case(src: &mut Src, obs: &mut Obs) -> CaseResult {
         };
         let out: Arc<Mutex<Option<zbus::Result<u32>>>> = Default::default();
         let o2 = out.clone();
+        // (the value is asked for through the stream's item, or through the proxy itself)
+        let via_proxy = src.bool();
+        let px = proxy.clone();
         let t = sched.spawn("refetch", async move {
-            let r = item.get().await;
+            let r = if via_proxy { px.get_property::<u32>("A").await } else { item.get().await };
             *o2.lock().unwrap() = Some(r);
         });
         let older = a;
@@ -529,7 +545,7 @@ pub fn c31_case(src: &mut Src, obs: &mut Obs) -> CaseResult {
         if answered && cached != Some(newer) {
             return Err(Failure::keyed(
                 "refetch-overwrites-newer-change",
-                format!("after Invalidated(A), a Get answered with {older} and then PropertiesChanged A={newer}, the cache holds A={cached:?} (the item's get() returned {:?}): the last value received is {newer}; {}", fetched.map(|r| r.map_err(|e| e.to_string())), describe()),
+                format!("after Invalidated(A), a Get (sent by {}) answered with {older} and then PropertiesChanged A={newer}, the cache holds A={cached:?} (the caller got {:?}): the last value received is {newer}; {}", if via_proxy { "Proxy::get_property" } else { "the change stream item's get()" }, fetched.map(|r| r.map_err(|e| e.to_string())), describe()),
             ));
         }
         obs.label(if answered { "change-stream:refetch-overtaken-by-a-newer-change" } else { "change-stream:refetch-without-get" });
